@@ -16,16 +16,17 @@ type NamePattern []ComponentPattern
 const TypeName TLNum = 0x07
 
 func (n Name) String() string {
-	ret := ""
+	sb := strings.Builder{}
 	for _, c := range n {
-		ret += "/" + c.String()
+		sb.WriteByte('/')
+		sb.WriteString(c.String())
 	}
-	if len(ret) == 0 {
-		ret = "/"
+	if sb.Len() == 0 {
+		sb.WriteByte('/')
 	} else if n[len(n)-1].Typ == TypeGenericNameComponent && len(n[len(n)-1].Val) == 0 {
-		ret += "/"
+		sb.WriteByte('/')
 	}
-	return ret
+	return sb.String()
 }
 
 func (n NamePattern) String() string {
